@@ -28,7 +28,7 @@ from typing import Dict, List, Set
 
 from sa.index import AnalysisError, Index
 from sa.report import Ctx, VERIF
-from sa.sym import Summaries, Summary, conjuncts, show, walk
+from sa.sym import FALSE, Summaries, Summary, conjuncts, show, walk
 
 MUTATORS = {"append", "extend", "insert", "add", "update", "setdefault", "pop", "popitem", "remove", "discard", "clear", "sort"}
 CONTAINER_CALLS = {"dict", "list", "set", "defaultdict", "OrderedDict", "Counter", "deque", "WeakValueDictionary", "WeakKeyDictionary", "lru_cache"}
@@ -393,7 +393,7 @@ def _const_of(node, index=None, module=None, _depth=0):
     return ["text", ast.unparse(node)]
 
 
-def model_decl(index, models, ci):
+def model_decl(index, models, ci, summ=None):
     cfg = {k: _const_of(v, index, ci.module) for k, v in models.model_config(ci).items()}
     cfg = {k: v for k, v in cfg.items() if PYDANTIC_CONFIG_DEFAULTS.get(k, object()) != v and not (isinstance(v, list) and tuple(v) == PYDANTIC_CONFIG_DEFAULTS.get(k))}
     fields = {}
@@ -422,7 +422,85 @@ def model_decl(index, models, ci):
                           "default": None if f.default is None else _const_of(f.default, index, f.owner.module),
                           "factory": None if f.default_factory is None else ast.unparse(f.default_factory)}
     protocol = sorted(n for n in ci.methods if n in PROTOCOL_METHODS)
-    return {"config": cfg, "fields": fields, "protocol": protocol}
+    return {"config": cfg, "fields": fields, "protocol": protocol, "hooks": model_hooks(index, models, ci, summ)}
+
+
+HOOK_DECORATORS = {"field_serializer", "model_serializer", "computed_field", "validator", "root_validator"}
+
+
+def model_hooks(index, models, ci, summ=None):
+    """The hooks of a model (own and inherited) that put another value into / out of an instance than the one supplied:
+    validators that REWRITE (a return value other than the validated value itself, a store into it or into self), serialisers,
+    computed fields.  Validators that only inspect and raise are not listed: they are the business of the rules on the
+    acceptance set.  -> sorted [[owner class, kind, mode, fields...], ...]"""
+    from sa.sym import Summaries
+    summ = summ or Summaries(index)
+    out = []
+    for v in models.validators(ci):
+        try:
+            s = summ.of_func(v.owner.module.name, f"{v.owner.name}.{v.name}")
+        except Exception:  # noqa: BLE001
+            out.append([v.owner.name, v.kind + "-validator", v.mode, *v.fields, "?"])
+            continue
+        params = {("param", p) for p in s.params}
+        rewrites = any(r.term not in params for r in s.returns) or s.fall_live != FALSE
+        for e in s.of("store"):
+            tgt = e.term[1] if len(e.term) > 1 else None
+            root = tgt
+            while isinstance(root, tuple) and root and root[0] in ("attr", "sub"):
+                root = root[1]
+            if root in params:
+                rewrites = True
+        for e in s.calls:
+            f = e.term[1]
+            if f[0] == "attr" and f[2] in MUTATORS | {"__setattr__", "__setitem__"}:
+                root = f[1]
+                while isinstance(root, tuple) and root and root[0] in ("attr", "sub"):
+                    root = root[1]
+                if root in params:
+                    rewrites = True
+            if f in (("builtin", "setattr"), ("attr", ("builtin", "object"), "__setattr__")) and e.term[2] and e.term[2][0] in params:
+                rewrites = True
+        if rewrites:
+            out.append([v.owner.name, v.kind + "-validator", v.mode, *v.fields])
+    for c in ci.mro():
+        for st in c.node.body:
+            if isinstance(st, ast.FunctionDef):
+                for d in st.decorator_list:
+                    call = d if isinstance(d, ast.Call) else None
+                    name = ast.unparse(call.func if call else d).split(".")[-1]
+                    if name in HOOK_DECORATORS:
+                        out.append([c.name, name, "", *[a.value for a in (call.args if call else []) if isinstance(a, ast.Constant)]])
+    return sorted(out)
+
+
+IGNORABLE_BASES = {"ABC", "Generic", "Protocol", "object"}
+
+
+def class_decl(ci):
+    """base classes by their last name component (an Enum with a str mixin is another type than a bare Enum)"""
+    bases = sorted({ast.unparse(b.value if isinstance(b, ast.Subscript) else b).split(".")[-1] for b in ci.base_exprs} - IGNORABLE_BASES)
+    return {"bases": bases}
+
+
+def package_exports(index):
+    """{package module: {public name: [kind, canonical qual]}} for the functions / classes the package's __init__ modules bind"""
+    out = {}
+    for m in index.modules.values():
+        if not m.is_pkg:
+            continue
+        names = {}
+        for n in list(m.imports) + list(m.defs):
+            if n.startswith("_"):
+                continue
+            try:
+                sy = index.resolve(m, n)
+            except Exception:  # noqa: BLE001
+                sy = None
+            if sy is not None and sy.kind in ("func", "class") and ":" in sy.qual and sy.module is not None:
+                names[n] = [sy.kind, sy.qual]
+        out[m.name] = names
+    return out
 
 
 def module_constants(m):
@@ -604,7 +682,7 @@ def check_declarations(ctx: Ctx, files: List[str]):
         if r is None:
             continue
         n_m += 1
-        cur = model_decl(index, models, ci)
+        cur = model_decl(index, models, ci, ctx.summ)
         site = f"{ci.module.relpath}:{ci.node.lineno} {ci.name}"
         problems = []
         for k in sorted(set(r["config"]) | set(cur["config"])):
@@ -635,10 +713,40 @@ def check_declarations(ctx: Ctx, files: List[str]):
                              f"{ci.name} {'now defines ' + ', '.join(added) if added else ''}{' and ' if added and gone else ''}{'no longer defines ' + ', '.join(gone) if gone else ''}: "
                              f"how its instances compare, hash, test true, iterate or are constructed differs from the reference -- every presence test, "
                              f"set / dict membership and equality check on them is affected"))
+        if "hooks" in r:
+            rh, ch = [tuple(h) for h in r["hooks"]], [tuple(h) for h in cur["hooks"]]
+            # a hook of the reference that moved to a base / subclass or was renamed keeps its (kind, mode, fields)
+            from collections import Counter
+            extra = sorted((Counter(h[1:] for h in ch) - Counter(h[1:] for h in rh)).elements())
+            for h in extra:
+                owner = [x[0] for x in ch if x[1:] == h][-1]
+                oc = next((c for c in ci.mro() if c.name == owner), ci)
+                what = f"{h[0]}({', '.join(repr(x) for x in h[2:])}{', ' if h[2:] and h[1] else ''}{'mode=' + repr(h[1]) if h[1] else ''})"
+                problems.append((oc.node.lineno, f"{owner}: @{what}",
+                                 f"{ci.name} now carries a {what} hook ({'declared in ' + owner + ', ' if owner != ci.name else ''}absent on the reference) that replaces "
+                                 f"the supplied value: instances no longer hold / dump what they were given, so every computation on this model "
+                                 f"sees other values than its caller passed"))
         for line, construct, msg in problems:
             ctx.bad("G.5", ci.module.relpath, ci.name, construct, msg, line)
         if not problems:
             ctx.ok("G.5", site, "config, field types, constraints and defaults as on the reference")
+    # base classes of every class of the modules in scope (a str / int mixin dropped from an Enum, a model turned dataclass ...)
+    n_c = 0
+    for m in mods:
+        for c in m.classes.values():
+            r = ref.get("classes", {}).get(c.qual)
+            if r is None:
+                continue
+            n_c += 1
+            cur = class_decl(c)
+            if cur["bases"] != r["bases"]:
+                gone, added = sorted(set(r["bases"]) - set(cur["bases"])), sorted(set(cur["bases"]) - set(r["bases"]))
+                ctx.bad("G.5", m.relpath, c.name, f"class {c.name}({', '.join(cur['bases'])})",
+                        f"the bases of {c.name} are ({', '.join(cur['bases'])}) where the reference declares ({', '.join(r['bases'])})"
+                        f"{': without ' + ', '.join(gone) if gone else ''}{' with ' + ', '.join(added) if added else ''} its instances are of another type -- "
+                        f"they compare, hash and convert differently (a member of `class E(str, Enum)` IS its string value; a member of `class E(Enum)` is not)",
+                        c.node.lineno, witness={"reference_bases": r["bases"], "current_bases": cur["bases"]})
+    ctx.ok("G.5", f"{len(files)} anchor file(s)", f"{n_c} class headers compared with the reference")
     ctx.ok("G.4", f"{len(files)} anchor file(s)", f"{n_f} public signatures compared with the reference")
     ctx.ok("G.5", f"{len(files)} anchor file(s)", f"{n_m} model classes compared with the reference")
 
@@ -839,3 +947,71 @@ def check_truthiness(ctx: Ctx, files: List[str]):
                 else:
                     ctx.ok("G.8", f"{sm_.module.relpath}:{e.lineno} {fn}", f"truthiness of {show(t)} ({c2.name}: no __bool__ / __len__)")
     ctx.ok("G.8", f"{len(files)} anchor file(s)", f"{n} truthiness tests of model-valued fields checked")
+
+
+# ---------------------------------------------------------------------------------------------------------------- G.9
+def export_divergences(index, ref):
+    """[(package, public name, reference qual, current qual)] for the public function names of the package's __init__ modules
+    that now resolve to ANOTHER definition although the one the reference exports is still where it was (a definition that
+    merely moved is the same definition: sa/index.py follows it)."""
+    out = []
+    for pkg, names in sorted(ref.get("exports", {}).items()):
+        m = index.modules.get(pkg)
+        if m is None:
+            continue
+        for n, (kind, rq) in sorted(names.items()):
+            if kind != "func":
+                continue
+            try:
+                sy = index.resolve(m, n)
+            except Exception:  # noqa: BLE001
+                sy = None
+            if sy is None or sy.kind != "func" or ":" not in sy.qual or sy.qual == rq or "." in sy.qual.split(":")[1]:
+                continue
+            rmod, rname = rq.split(":")
+            hm = index.modules.get(rmod)
+            if hm is None or not any(isinstance(d, ast.FunctionDef) for d in hm.defs.get(rname, [])):
+                continue  # moved
+            out.append((pkg, n, rq, sy.qual))
+    return out
+
+
+def check_public_exports(ctx: Ctx, mod, files: List[str]):
+    """The rules analyse the definitions the property is anchored in.  Users reach them through the package's public names:
+    where such a name now resolves to another definition while the anchored one still exists, the property's own rules are
+    run once more with that definition in the anchored one's place ("public view")."""
+    ref = _load_decls()
+    ctx.rule("G.9", "the package's public names resolve to the definitions the rules analysed, or to ones that pass the same rules", 1)
+    if ref is None or "exports" not in ref:
+        ctx.undec("G.9", "sa/pinned_decls.json", "reference export table missing")
+        return
+    div = export_divergences(ctx.index, ref)
+    rel = [d for d in div if ctx.index.modules[d[2].split(":")[0]].relpath in files]
+    n = sum(len(v) for v in ref["exports"].values())
+    ctx.ok("G.9", "package __init__ modules", f"{n} reference exports compared; {len(div)} resolve to another definition, {len(rel)} of them anchored here")
+    if not rel:
+        return
+    index2 = Index(ctx.index.root, ctx.index.overlay)
+    for pkg, name, rq, cq in rel:
+        index2.redirect[tuple(rq.split(":"))] = tuple(cq.split(":"))
+    ctx2 = Ctx(ctx.prop, index2, ctx.tier)
+    what = "; ".join(f"{pkg}.{name} -> {cq} (reference: {rq})" for pkg, name, rq, cq in rel)
+    m0 = ctx.index.modules[rel[0][3].split(":")[0]]
+    line0 = next((d.lineno for d in m0.defs.get(rel[0][3].split(":")[1], []) if isinstance(d, ast.FunctionDef)), 1)
+    try:
+        mod.run(ctx2)
+    except AnalysisError as e:
+        ctx.undec("G.9", f"{m0.relpath}:{line0} {rel[0][3].split(':')[1]}", f"public view ({what}): the rules cannot analyse the replacing definition: {e}")
+        return
+    have = [f.key() for f in ctx.findings]
+    new = [f for f in ctx2.findings if f.key() not in have]
+    have_u = {(u.rule, u.reason) for u in ctx.undecided}
+    new_u = [u for u in ctx2.undecided if (u.rule, u.reason) not in have_u]
+    for f in new:
+        ctx.bad("G.9", m0.relpath, rel[0][3].split(":")[1], f"{f.rule}: {f.construct}",
+                f"the public name {what} no longer resolves to the analysed definition, and with the replacing definition in its place "
+                f"rule {f.rule} fails: {f.message}", line0, witness=f.witness)
+    for u in new_u:
+        ctx.undec("G.9", f"{m0.relpath}:{line0} {rel[0][3].split(':')[1]}", f"public view ({what}): {u.rule} undecided: {u.reason}")
+    if not new and not new_u:
+        ctx.ok("G.9", f"{m0.relpath}:{line0}", f"public view ({what}): every rule of the property passes on the replacing definition")
